@@ -125,7 +125,7 @@ def _run(ctx, g, c, rng, craft):
 
     def crafter(gen, out):
         # positions -> library rows through the permutation this very generator drew (if any)
-        ch = gen.of("choice")
+        ch = gen.of("choice") or gen.of("permutation")
         order = list(ch[-1]["out"]) if ch else list(range(len(out)))
         sub = np.random.default_rng(c["gseed"] + 1)
         n = min(len(out), len(order))
@@ -251,6 +251,9 @@ def _run(ctx, g, c, rng, craft):
              f"permutation), each once, in that order; helper evaluated {evaluated[:12]}.. expected {order[:12]}..",
              impl=dict(evaluated=evaluated[:200]))
         return
+
+    if c["shuffle"] and idx is None:
+        mop["idx"] = list(order)      # the permutation was not drawn with `choice`: the model takes the observed order
 
     # ---- V4 returned rows are evaluated rows, in evaluation order, no duplicates
     pos_of = {r: p for p, r in enumerate(order)}
